@@ -31,9 +31,72 @@ struct SnapRec {
 };
 using COW = cow_guarded<Cell, vrf::mutex_t>;
 
+// Allocation failure while a write handle is released: the commit allocates (the control block of the published pointer).
+// Release is noexcept, so the unchanged library stops the program (std::terminate) - fail-stop, nothing can observe a lost
+// commit. What must not happen is that the program goes on and the commit is silently gone. One child process per failing
+// allocation (a terminate cannot be survived in-process).
+#if !VRF_ASAN
+#include <sys/wait.h>
+static void allocfault_mode()
+{
+    using COW = cow_guarded<Cell, vrf::mutex_t>;
+    long fail_stops = 0, survived = 0, points = 0;
+    for (long n = 1; n <= 16; n++) {
+        fflush(stdout);
+        fflush(stderr);
+        pid_t pid = fork();
+        if (pid < 0) vrf::harness_error("fork failed");
+        if (pid == 0) {
+            std::set_terminate([] { _exit(42); });
+            vrf::res.cur_round = n;
+            vrf::res.cur_program = "{\"mode\":\"allocfault\",\"failing_allocation\":" + std::to_string(n) + "}";
+            COW cow(false);
+            {
+                COW::handle h = cow.lock();
+                h->append_raw(1);
+            }
+            {
+                COW::handle h = cow.lock();
+                h->append_raw(2);
+                vrf::tl_new_fail_countdown = n;
+                h.reset();  // commit
+                vrf::tl_new_fail_countdown = 0;
+            }
+            if (vrf::tl_new_faults == 0) _exit(43);  // fewer than n allocations in a commit: enumeration complete
+            // the fault fired and the program is still running: then the commit must be there, for readers and for writers
+            auto s = cow.lock_shared();
+            if (s->log() != std::vector<uint32_t>{1, 2})
+                vrf::violation("oracle:commit_silently_lost_after_an_allocation_failure", "{\"failing_allocation\":" + std::to_string(n) + ",\"value\":" + vrf::jnums(s->log()) + "}");
+            _exit(0);
+        }
+        int st = 0;
+        if (waitpid(pid, &st, 0) != pid) vrf::harness_error("waitpid failed");
+        int code = WIFEXITED(st) ? WEXITSTATUS(st) : 128 + WTERMSIG(st);
+        if (code == 43) break;
+        points++;
+        if (code == 42) fail_stops++;
+        else if (code == 0) survived++;
+        else if (code == 1) _exit(1);  // the child reported the violation (VRF-RESULT line and replay file are written)
+        else vrf::harness_error("allocfault child ended with status " + std::to_string(code));
+        vrf::note(static_cast<uint64_t>(n) * 16 + static_cast<uint64_t>(code), true);
+    }
+    if (points == 0) vrf::harness_error("no allocation inside a commit was reached");
+    vrf::count("allocation_failures_injected_into_a_commit", static_cast<uint64_t>(points));
+    vrf::count("commit_fail_stop_terminate", static_cast<uint64_t>(fail_stops));
+    vrf::count("commit_survived_and_visible", static_cast<uint64_t>(survived));
+    vrf::res.rounds_done += points;
+}
+#endif
+
 int main(int argc, char** argv)
 {
     vrf::init(argc, argv, "C04");
+#if !VRF_ASAN
+    if (vrf::cfg.mode == "allocfault") {
+        allocfault_mode();
+        vrf::finish();
+    }
+#endif
     long base_live = vrf::g_cell_live.load();
     for (long r = 0; r < vrf::cfg.rounds; r++) {
         if (!vrf::want_round(r)) continue;
